@@ -26,6 +26,16 @@ CONSTANTS
   FBotch = 1
   FUse = 1
   FailMtls = {FALSE}
+  ResConn = 0
+  ResReload = 0
+  ResRotate = 0
+  ResUse = 0
+  ResMtls = {}
+  RResConn = 0
+  RResReload = 0
+  RResRotate = 0
+  RResUse = 0
+  RResMtls = {}
   Extra = {"rfail"}
 INVARIANTS TypeOK Undisturbed Fresh
 CHECK_DEADLOCK FALSE
